@@ -447,6 +447,10 @@ func (g *Gen) callText(sc *scope, m *genMethod) string {
 
 func (g *Gen) stmts(sc *scope, n int, depth int, inDef bool) []*Node {
 	var out []*Node
+	// now and then a body is empty (an `else` with nothing in it, an empty block)
+	if depth > 0 && g.r.Chance(1, 9) {
+		return out
+	}
 	for i := 0; i < n; i++ {
 		out = append(out, g.stmt(sc, depth, inDef)...)
 	}
@@ -523,6 +527,21 @@ func (g *Gen) stmt(sc *scope, depth int, inDef bool) []*Node {
 			n.Bodies = append(n.Bodies, g.stmts(&scope{parent: sc}, 1+r.Intn(2), depth+1, inDef))
 		}
 		return []*Node{n}
+	case k == 19 && depth < g.opts.MaxDepth: // conditional used as a value
+		v := &genVar{id: g.newName("local"), ty: ty()}
+		a, b := Pick(r, scalarAtoms[:4]), Pick(r, scalarAtoms[:4])
+		n := &Node{Kind: "if-expr", Head: ph(v.id) + " = if " + g.exprOf(sc, "Bool", 1), Tail: "end", Feat: []string{"if-expr"}}
+		n.Bodies = append(n.Bodies, []*Node{{Kind: "expr", Head: g.exprOf(sc, a, 1)}})
+		n.Seps = append(n.Seps, "else")
+		if r.Chance(1, 3) {
+			n.Bodies = append(n.Bodies, []*Node{})
+			v.ty = ty(a, "NilClass")
+		} else {
+			n.Bodies = append(n.Bodies, []*Node{{Kind: "expr", Head: g.exprOf(sc, b, 1)}})
+			v.ty = ty(a, b)
+		}
+		sc.vars = append(sc.vars, v)
+		return []*Node{n, {Kind: "probe", Head: "dbtp " + ph(v.id)}}
 	case k == 11: // while
 		v := &genVar{id: g.newName("local"), ty: ty("Integer")}
 		sc.vars = append(sc.vars, v)
@@ -617,7 +636,20 @@ func (g *Gen) def(sc *scope, classID string, static bool, depth int) *Node {
 	n := &Node{Kind: "def", Head: head, Tail: "end", Feat: []string{"def"}}
 	body := g.stmts(inner, 1+r.Intn(3), depth+1, true)
 	a := Pick(r, scalarAtoms[:4])
-	body = append(body, &Node{Kind: "expr", Head: g.exprOf(inner, a, 1), Feat: []string{"result"}})
+	if r.Chance(1, 4) {
+		// the method's value is a conditional, sometimes with an empty else
+		n2 := &Node{Kind: "if", Head: "if " + g.exprOf(inner, "Bool", 1), Tail: "end", Feat: []string{"if-result"}}
+		n2.Bodies = append(n2.Bodies, []*Node{{Kind: "expr", Head: g.exprOf(inner, a, 1)}})
+		n2.Seps = append(n2.Seps, "else")
+		if r.Bool() {
+			n2.Bodies = append(n2.Bodies, []*Node{})
+		} else {
+			n2.Bodies = append(n2.Bodies, []*Node{{Kind: "expr", Head: g.literal(a)}})
+		}
+		body = append(body, n2)
+	} else {
+		body = append(body, &Node{Kind: "expr", Head: g.exprOf(inner, a, 1), Feat: []string{"result"}})
+	}
 	m.ret = ty(a)
 	n.Bodies = [][]*Node{body}
 	g.methods = append(g.methods, m)
